@@ -24,12 +24,23 @@ def tmpdir():
     return _tmpdir
 
 
+def _limit_cpu(seconds):
+    def f():
+        import resource
+
+        # budget in CPU seconds, so that verdicts do not depend on how many other solvers share the cores
+        resource.setrlimit(resource.RLIMIT_CPU, (int(seconds) + 1, int(seconds) + 2))
+    return f
+
+
 def _run(cmd, timeout):
     t0 = time.time()
     try:
-        p = subprocess.run(cmd, capture_output=True, text=True, timeout=timeout + 2)
+        p = subprocess.run(cmd, capture_output=True, text=True, timeout=timeout * WALL_FACTOR + 5, preexec_fn=_limit_cpu(timeout))
         out = p.stdout.strip()
         err = p.stderr.strip()
+        if p.returncode < 0 and not out:
+            return "timeout", "", time.time() - t0  # killed by SIGXCPU / SIGKILL at the CPU limit
     except subprocess.TimeoutExpired:
         return "timeout", "", time.time() - t0
     first = out.splitlines()[0].strip() if out else ""
@@ -42,13 +53,16 @@ def _run(cmd, timeout):
     return first, out, time.time() - t0
 
 
+WALL_FACTOR = 6  # wall-clock allowance per CPU second of budget (the CPU limit is what normally ends a run)
+
+
 def run_z3(path, timeout):
-    return _run([Z3, f"-T:{int(timeout)}", "smt.random_seed=1", path], timeout)
+    return _run([Z3, f"-T:{int(timeout * WALL_FACTOR)}", "smt.random_seed=1", path], timeout)
 
 
 def run_cvc5(path, timeout):
     return _run(
-        [CVC5, f"--tlimit={int(timeout * 1000)}", "--strings-exp", "--full-saturate-quant", "--produce-models", path],
+        [CVC5, f"--tlimit={int(timeout * 1000 * WALL_FACTOR)}", "--strings-exp", "--full-saturate-quant", "--produce-models", path],
         timeout,
     )
 
